@@ -112,8 +112,14 @@ var props = []propDef{
 }
 
 func spkProp(id string) propDef {
-	return propDef{ID: id, Level: "exploration", Rule: kspkRule, Assumptions: kspkAssume, Components: kspkComponents,
+	pd := propDef{ID: id, Level: "exploration", Rule: kspkRule, Assumptions: kspkAssume, Components: kspkComponents,
 		Batches: []batch{{Engine: "kspk", Variant: "", Runs: 36000, RunsT: 600000, WallS: 170, WallST: 1500}}}
+	if id == "C18" {
+		pd.Rule += "  Controller half: in every K-ctl run, at each quiescence a duplicate event is delivered to the real PoolReconciler (fresh listing and map orders); the pool handler must not be invoked again."
+		pd.Batches[0].Note = "speaker process: ConfigReconciler fork check"
+		pd.Batches = append(pd.Batches, batch{Engine: "kctl", Variant: "faults=off", Runs: 48000, RunsT: 1000000, WallS: 100, WallST: 900, Note: "controller process: PoolReconciler + allocator, unrelated event at every quiescence"})
+	}
+	return pd
 }
 
 var gnativeComponents = map[string]string{
